@@ -14,7 +14,7 @@ from simdag.core import runner
 
 HOME = os.environ.get("VERIF_HOME", "/verif")
 DEFAULT_RUNS = {"C01": 2000, "C02": 2000, "C04": 4000, "C05": 4000, "C11": 1500, "C13": 3000, "C16": 1500,
-                "C03": 48, "C12": 48, "C14": 60, "C15": 32}
+                "C03": 300, "C12": 200, "C14": 160, "C15": 64}
 
 
 def digests(prop, runs, workers, hashseed, verif_seed):
